@@ -444,10 +444,31 @@ def methods_rule(repo, res):
 
     fn = arr.func("unyt_array.dot")
     res.fn(fn)
+    bp, op = fn.params[1], fn.params[2]
     calls = [c for c in ast.walk(fn.node) if isinstance(c, ast.Call) and isinstance(c.func, ast.Attribute) and c.func.attr == "dot"]
-    ok = len(calls) == 1 and norm(calls[0].func.value) == "self.view(np.ndarray)" and [norm(a) for a in calls[0].args] == ["np.asarray(b)"] and norm(kwarg_of(calls[0], "out")) == "out"
-    res.check(ok, "dot", fn.where(), "dot must compute self.view(ndarray).dot(np.asarray(b), out=out)", found=[norm(c) for c in calls], rid=r5)
-    sets = [n for n in ast.walk(fn.node) if isinstance(n, ast.Assign) and norm(n.targets[0]) == "out.units"]
+    STRIPPED_SELF = ("self.view(np.ndarray)", "np.asarray(self)", "self.d", "self.ndview")
+    ok = len(calls) == 1 and norm(calls[0].func.value) in STRIPPED_SELF and [norm(a) for a in calls[0].args] in ([f"np.asarray({bp})"], [f"np.asanyarray({bp}).view(np.ndarray)"])
+    res.check(ok, "dot", fn.where(), "dot must run ndarray.dot on the bare view of self with the stripped second operand, in that order", f"self.view(np.ndarray).dot(np.asarray({bp}), out=...)", [norm(c) for c in calls], rid=r5)
+    # the out= buffer NumPy writes into (and returns) is a *plain view* of the caller's out: handing over a unyt
+    # out makes NumPy return that object - with whatever unit it had - as the product, which is then multiplied by
+    # the result unit once more
+    okv = False
+    found = None
+    if len(calls) == 1:
+        o = kwarg_of(calls[0], "out")
+        if o is None and len(calls[0].args) > 1:
+            o = calls[0].args[1]
+        found = norm(o) if o is not None else None
+        if isinstance(o, ast.Name) and o.id != op:
+            ds = [n.value for n in walk_no_nested(fn.node) if isinstance(n, ast.Assign) and norm(n.targets[0]) == o.id]
+            o = ds[0] if len(ds) == 1 else None
+            found = f"{found} = {norm(o) if o is not None else '?'}"
+        plain = (f"{op}.view(np.ndarray)", f"np.asarray({op})", f"{op}.d", f"{op}.ndview")
+        if o is not None:
+            t = norm(o)
+            okv = t in plain or (isinstance(o, ast.IfExp) and norm(o.test) in (f"{op} is None", f"{op} is not None") and {norm(o.body), norm(o.orelse)} & set(plain) and {norm(o.body), norm(o.orelse)} - set(plain) <= {"None"})
+    res.check(okv, "dot:out-plain-view", fn.where(), "ndarray.dot must be given a plain ndarray view of out (NumPy returns its out argument: a unyt out would carry its previous unit into the product)", f"{op}.view(np.ndarray) (or None)", found, rid=r5)
+    sets = [n for n in ast.walk(fn.node) if isinstance(n, ast.Assign) and norm(n.targets[0]) == f"{op}.units"]
     res.check(len(sets) == 1 and norm(sets[0].value) == "res_units", "dot:out-units", fn.where(), "dot stores the product unit on out", rid=r5)
 
     fn = arr.func("unyt_array.__getitem__")
@@ -504,7 +525,8 @@ MUTANTS = [
     Mutant("out-copy", AF, "around", "out=np.asarray(out)", "out=np.array(out, copy=True)", ("C06-R4",)),
     Mutant("out-no-units", AF, "concatenate", '    if getattr(out, "units", None) is not None:\n        out.units = ret_units\n', "", ("C06-R4",)),
     Mutant("argsort-order", ARR, "unyt_array.argsort", "argsort(axis, kind, order)", "argsort(axis, order, kind)", ("C06-R5",)),
-    Mutant("dot-asarray", ARR, "unyt_array.dot", "np.asarray(b), out=out", "np.asarray(self), out=out", ("C06-R5",)),
+    Mutant("dot-asarray", ARR, "unyt_array.dot", "np.asarray(b), out=out_view", "np.asarray(self), out=out_view", ("C06-R5",)),
+    Mutant("dot-out-unyt", ARR, "unyt_array.dot", "np.asarray(b), out=out_view", "np.asarray(b), out=out", ("C06-R5",)),
     Mutant("dispatch-drops-kwargs", ARR, "unyt_array.__array_function__", "return func._implementation(*args, **kwargs)", "return func._implementation(*args)", ("C06-R6",)),
     Mutant("twin-local-alias", AF, "cross", "np.cross._implementation(np.asarray(a), np.asarray(b), *args, **kwargs)", "np.cross._implementation(np.asanyarray(a), np.asarray(b), *args, **kwargs)", (), benign=True),
     Mutant("twin-kw-form", AF, "around", "np.around._implementation(np.asarray(a), decimals=decimals) * ret_units", "np.around._implementation(np.asarray(a), decimals) * ret_units", (), benign=True),
